@@ -50,6 +50,15 @@ def run(chk, replay=None):
     for nm, t in [("bom", "\ufeff" + base_ok), ("bom-bad", "\ufefffn main() {"), ("nbsp", "\u00a0" + base_ok), ("lead-ws", " \n\t" + base_ok), ("trail-ws", base_ok + " \n\n\t "), ("crlf", base_ok.replace(" ", "\r\n")),
                   ("zwsp", base_ok + "\u200b"), ("ff", "\x0c" + base_ok), ("nul", base_ok + "\x00"), ("lead-comment", "// x\n/* y */" + base_ok)]:
         progs.append(Prog(t, [], "blank/" + nm))
+    # a program file holds code only: modules written next to the code give the program neither arguments nor witnesses
+    # (library and simc agree: a parameter is still missing its argument)
+    for nm, t in [("param-inline-module", "mod param { const X: u32 = 7; }\nfn main() { assert!(jet::eq_32(param::X, 7)); }"),
+                  ("param-inline-module-after", "fn main() { assert!(jet::eq_32(param::X, 7)); }\nmod param { const X: u32 = 7; }"),
+                  ("param-no-module", "fn main() { assert!(jet::eq_32(param::X, 7)); }"),
+                  ("witness-inline-module", "mod witness { const W: u32 = 7; }\nfn main() { assert!(jet::eq_32(witness::W, 7)); }"),
+                  ("unused-inline-modules", "mod witness { const W: u32 = 7; }\nmod param { const X: u32 = 7; }\nfn main() { assert!(jet::eq_32(7, 7)); }"),
+                  ("param-in-function", "mod param { const X: u32 = 7; }\nfn f() -> u32 { param::X }\nfn main() { assert!(jet::eq_32(f(), 7)); }")]:
+        progs.append(Prog(t, [], "inline-module/" + nm))
     progs += [Prog("fn main() { let x: u8 = y; }", [], "bad/undefined"), Prog("fn main() {", [], "bad/grammar"), Prog("", [], "bad/empty")]
     nproc = 8 if quick else 12
     for dbg in (0, 1):
